@@ -327,7 +327,10 @@ def c03(tier):
     roots = write_roots(ck, ["roots_general.fen", "roots_special.fen", "roots_lowmat.fen"])
     shards = trace(ck, exe, "trees", "t", {"roots": roots, "units": 480 if full else 32, "depth": 5 if full else 4, "branch": 3,
                                            "shards": 48 if full else 16, "prefix": 40, "nulls-pct": 35, "eval": 1})
-    shards += trace(ck, exe, "search-preserves", "s", {"roots": roots, "runs": 200 if full else 24, "shards": 16})
+    shards += trace(ck, exe, "search-preserves", "s", {"roots": roots, "runs": 600 if full else 80, "shards": 16})
+    # make / unmake with half-move clocks 100..148 (the undo record carries the clock: every bit of it must come back)
+    hc = write_roots_named(ck, ["roots_highclock.fen"], "highclock.fen")
+    shards += trace(ck, exe, "trees", "h", {"roots": hc, "units": 200 if full else 48, "depth": 3, "branch": 3, "shards": 16, "prefix": 6, "nulls-pct": 20, "eval": 0})
     viols, cnt = validate(ck, shards)
     need(cnt, ["undo_cmp", "undo", "undonull"], "C03 traces")
     take(ck, "C03", viols, others)
